@@ -253,7 +253,12 @@ sys.exit(0)
 '''
 
 
+INLINE_REPLAY = "import runpy, sys\nsys.argv = ['c18_inline']\nrunpy.run_path('/verif/replay_lib/c18_inline.py', run_name='__main__')\n"
+
+
 def replay(ob):
+    if "inliner.instantiate" in ob["name"]:
+        return INLINE_REPLAY
     n = ob["name"]
     if "C18.builder.build_graph." in n:
         return NESTED_SCOPE
